@@ -48,10 +48,10 @@ typedef struct {
 } mlist_t;
 
 enum { LO_A, LO_B, LO_BAD, LO_SET, LO_NONJSON, LO_EMPTYKEYS, LO_FREE0, LO_FREEMID, LO_FREELAST, LO_FREEN, LO_FREEMAX, LO_FREEBAD, LO_FREEALL, LO_CLEAR, NLO };
-static const char *lo_name[NLO] = { "load(A oct kid=k1)", "load(B EC kid=k1)", "load(bad oct)", "load(set[k2,bad kb,RSA k1])", "load(non-JSON)", "load({keys:[]})",
+static const char *lo_name[NLO] = { "load(A oct kid=k1)", "load(B EC kid=k1)", "load(bad oct kid=kb)", "load(set[k2,bad ZZ,RSA k1])", "load(non-JSON)", "load({keys:[]})",
 				    "free(0)", "free(mid)", "free(last)", "free(n)", "free(SIZE_MAX)", "free_bad", "free_all", "error_clear" };
 static char *DOC_A, *DOC_B, *DOC_SET;
-static const char DOC_BAD[] = "{\"kty\":\"oct\"}";
+static const char DOC_BAD[] = "{\"kty\":\"oct\",\"kid\":\"kb\"}";   /* errored item that still carries a kid */
 static const char DOC_NONJSON[] = "{\"keys\":[";
 static const char DOC_EMPTYKEYS[] = "{\"keys\":[]}";
 
@@ -63,7 +63,7 @@ static void c16_docs(void)
 	DOC_B = vk_jwk_text(vk_get("p256a"), 0, "ES256", "k1");
 	char *o = vk_oct_jwk(k, 32, NULL, "k2"), *r = vk_jwk_text(vk_get("rsa2048a"), 0, "RS256", "k1");
 	DOC_SET = malloc(strlen(o) + strlen(r) + 200);
-	sprintf(DOC_SET, "{\"keys\":[%s,{\"kty\":\"ZZ\",\"kid\":\"kb\"},%s]}", o, r);
+	sprintf(DOC_SET, "{\"keys\":[%s,{\"kty\":\"ZZ\",\"kid\":\"kz\"},%s]}", o, r);
 	free(o);
 	free(r);
 }
@@ -88,7 +88,7 @@ static long model_list_step(mlist_t *m, int op)
 	switch (op) {
 	case LO_A: mlist_push(m, "k1", JWK_KEY_TYPE_OCT, 0); return -1;
 	case LO_B: mlist_push(m, "k1", JWK_KEY_TYPE_EC, 0); return -1;
-	case LO_BAD: mlist_push(m, "", JWK_KEY_TYPE_OCT, 1); return -1;
+	case LO_BAD: mlist_push(m, "kb", JWK_KEY_TYPE_OCT, 1); return -1;
 	case LO_SET:
 		mlist_push(m, "k2", JWK_KEY_TYPE_OCT, 0);
 		mlist_push(m, "", JWK_KEY_TYPE_NONE, 1);   /* unknown kty: values (kid) are not read */
@@ -195,7 +195,7 @@ static int observe_list(jwk_set_t *s, const mlist_t *m, const int *ops, int nops
 				OBSV("list|bad-item-without-message", "item %d has error but an empty message", i);
 		}
 	}
-	static const char *kids[] = { "k1", "k2", "kb", "k", "k11", "zz", "" };
+	static const char *kids[] = { "k1", "k2", "kb", "kz", "k", "k11", "zz", "" };
 	for (unsigned k = 0; k < sizeof kids / sizeof *kids; k++) {
 		int want = -1;
 		for (int i = 0; i < m->n; i++)
